@@ -201,7 +201,11 @@ StepF(s, ln) == Apply(BranchOf(s, ln.c), s, ln)
 RECURSIVE RunRange(_, _, _, _)
 RunRange(s, ls, lo, hi) == IF lo > hi THEN s
                            ELSE IF lo = hi THEN StepF(s, ls[lo])
-                           ELSE LET mid == (lo + hi) \div 2 IN RunRange(RunRange(s, ls, lo, mid), ls, mid + 1, hi)
+                           ELSE LET mid  == (lo + hi) \div 2
+                                    left == RunRange(s, ls, lo, mid)
+                                IN \* (the test forces TLC to evaluate the left half now: its arguments are lazy,
+                                   \*  and a chain of pending halves would make the Java stack as deep as the input)
+                                   IF left.stopped \in BOOLEAN THEN RunRange(left, ls, mid + 1, hi) ELSE left
 Run(raw, ls) == RunRange(RInit(raw), ls, 1, Len(ls))
 
 \* what the caller has at end of input (EOFError on an empty payload = empty paragraph = stop)
